@@ -4,7 +4,8 @@
    bookkeeping, missing-peer unwrap) from a state satisfying NodeInv. *)
 From RV Require Import Base.Prelude Base.IdSet M.Util M.Proto M.MemStorage M.Inflights
   M.InflightsProofs M.Progress M.RaftLog M.Quorum M.ConfChange M.Msg M.Raft M.RawNode
-  M.RaftProofs M.RaftProofsC15 M.RaftProofsC09 M.RaftProofsC20 M.RaftProofsC20Iff M.RaftProofsC20Inv.
+  M.RaftProofs M.RaftProofsC15 M.RaftProofsC09 M.RaftProofsC20 M.RaftProofsC20Iff M.RaftProofsC20Inv
+  M.RaftProofsC20Wit.
 From RecordUpdate Require Import RecordSet.
 Import RecordSetNotations.
 
@@ -1011,3 +1012,38 @@ Theorem NodeInv_initial r ids n mi o :
 Proof.
   intros Hn Hp Hr. split; [rewrite Hp; apply PrsOk_fresh; exact Hn|rewrite Hr; apply RoInv_new].
 Qed.
+
+(* ================================================================== *)
+(* non-vacuity *)
+Lemma nodeinv_k_leader : NodeInv C20W.k_leader.
+Proof.
+  split; [|reflexivity].
+  intros id p G. vm_compute in G.
+  repeat match type of G with (if ?c then _ else _) = _ => destruct c end; try discriminate;
+    injection G as <-; (split; [unfold Inv; cbn; repeat split; try lia; intros; discriminate|cbn; lia]).
+Qed.
+
+Lemma nodeinv_nonvacuous :
+  exists r m r', NodeInv r /\ snap_ok m /\ r_state r = Leader /\ step r m = Ok (r', E_OK) /\ NodeInv r'.
+Proof.
+  assert (Hs : snap_ok C20W.k_ack4) by (apply snap_ok_local; discriminate).
+  assert (E : exists r', step C20W.k_leader C20W.k_ack4 = Ok (r', E_OK)) by (eexists; vm_compute; reflexivity).
+  destruct E as [r' E].
+  exists C20W.k_leader, C20W.k_ack4, r'.
+  split; [exact nodeinv_k_leader|]. split; [exact Hs|]. split; [reflexivity|]. split; [exact E|].
+  exact (safe_ok_inv _ _ _ (step_safe _ _ nodeinv_k_leader Hs) E).
+Qed.
+
+Lemma snap_ok_def_pin m : snap_ok m <-> (m_type m = MsgSnapshot -> 1 <= s_index (m_snapshot m)).
+Proof. reflexivity. Qed.
+Lemma RnInv_def_pin n : RnInv n <-> NodeInv (rn_raft n).
+Proof. reflexivity. Qed.
+Lemma post_def_pin r r' :
+  post r r' <-> NodeInv r' /\ (forall id, (exists p, get_pr r id = Some p) -> exists p, get_pr r' id = Some p).
+Proof. reflexivity. Qed.
+Lemma has_def_pin r id : has r id <-> exists p, get_pr r id = Some p.
+Proof. reflexivity. Qed.
+Lemma pr_ok_def_pin p : pr_ok p <-> InflightsProofs.Inv (ins p) /\ 1 <= next_idx p.
+Proof. reflexivity. Qed.
+Lemma RoInv_def_pin ro : RoInv ro <-> ro_queue ro = map fst (ro_pending ro).
+Proof. reflexivity. Qed.
